@@ -201,6 +201,17 @@ def run(tier, seed):
     res.disagreements_checked = res.traces
     res.trusted += ['hand-written model FF.toMatrix (np.unique as sorted distinct list; the "{:,.8f}" key strings parsed back to grid values) '
                     'composed with the digitisation and counter models, tied by exact correspondence']
+    # (last: a shared default object polluted here must not disturb the streams above)
+    core.import_impl()
+    from ffpack import lsm as _lsm
+    _hs = [[0.0, 1.0, 2.0, 3.0], [0.0, 0.2, 0.1, 0.3], [0.0, 2.0, 1.0, 3.0, 0.0], [1.0, 5.0, 1.0], [0.0, 4.0, 1.0, 3.0, 2.0]]
+    _calls = []
+    for _h in _hs:
+        for _name in cyc.NAMES:
+            if not (cyc.valid_for(_name, _h)):
+                continue
+            _calls.append((cyc.MATRIX_API[_name], (lambda _h=_h, _name=_name: getattr(_lsm, cyc.MATRIX_API[_name])(list(_h), 1.0)), f'{_h} resolution=1'))
+    cyc.fresh_results(res, _calls)
     return core.finish(res)
 
 
